@@ -111,7 +111,10 @@ func (w *JWorld) GenJText(c *simrt.Chooser, doc *JDoc, v int, includes []string)
 		lines = append(lines, line("include "+inc))
 	}
 	if c.Pct("decl", 25) {
-		a := pick(c, "decl-acct", w.Pools.Accounts)
+		// pool accounts sit under the standard top-level categories; the marker
+		// and template accounts do not, so declaring some of them (or a parent)
+		// decides which postings of which documents are warned about
+		a := pick(c, "decl-acct", append(append([]string(nil), w.Pools.Accounts...), "v:sink", "tp", "tp:sink", "v", "agg:all"))
 		lines = append(lines, line("account "+a, Occ{Kind: "account", Name: a, Start: 8, End: 8 + len(a), Decl: true}))
 	}
 	if c.Pct("decl-com", 20) {
